@@ -79,6 +79,38 @@ def main():
                 direct.append({"law": "function proxy returns the function's values", "got": val.tolist()})
         except Exception as e:  # noqa
             direct.append({"law": "a server-function result is fetched through the dataset's session", "error": repr(e)[:300]})
+        # (2b) no explicit session: the one open_url creates must carry every later request, function results included
+        auto = []
+        spy_adapter = TR.WSGIAdapter(app)
+
+        def spy_mount(self, *a, **k):
+            orig_init(self, *a, **k)
+            auto.append(self)
+            self.mount(TR.BASE, spy_adapter)  # longest prefix wins over the adapters create_session mounts
+        requests.Session.__init__ = spy_mount
+        try:
+            ds2 = open_url(TR.BASE + "/d", protocol="dap2", session_kwargs={"token": "verif-token"})
+            n_open = len(auto)
+            own = ds2.session if hasattr(ds2, "session") else getattr(ds2, "_session", None)
+            for what, fn in (("array", lambda: np.asarray(ds2["x"].data[0:2, 1:3])),
+                             ("function", lambda: np.asarray(ds2.functions.mean(ds2["x"], 0)["x"].data[:])),
+                             ("nested function", lambda: np.asarray(
+                                 ds2.functions.mean(ds2.functions.mean(ds2["x"], 0), 0)["x"].data))):
+                try:
+                    fn()
+                except Exception as e:  # noqa
+                    direct.append({"law": "reads on a dataset opened without an explicit session succeed", "what": what,
+                                   "error": repr(e)[:300]})
+                r.count(("auto-session", what))
+                if len(auto) > n_open:
+                    direct.append({"law": "no fresh anonymous session is created on behalf of an opened dataset",
+                                   "what": what + " read on a dataset opened with session_kwargs and no session",
+                                   "sessions_created_after_open": len(auto) - n_open})
+                    n_open = len(auto)
+            if own is None or own not in auto:
+                direct.append({"law": "dataset.session is the session the dataset was opened with", "got": repr(own)})
+        finally:
+            requests.Session.__init__ = spy_init
         root = D.Node("d4")
         arr = np.arange(6, dtype="i4").reshape(2, 3)
         root.members.append(D.Var("x", "Int32", [("anon", 2), ("anon", 3)], arr))
@@ -121,7 +153,7 @@ def main():
     known = ["http://h1.org/data/coll/a.nc", "http://h1.org/data/coll/sub/b.nc"]
     patch_session_for_shared_dap_cache(sess, shared, known)
     base = ["data", "coll"]
-    hosts = ["http://h1.org", "http://h2.org", "https://h1.org"]
+    hosts = ["http://h1.org", "http://h2.org", "https://h1.org", "http://h1.org:8001", "http://h1.org:8002"]
     paths = ["/data/coll/a.nc.dap", "/data/coll/sub/b.nc.dap", "/data/coll2/a.nc.dap", "/data/col/a.nc.dap", "/other/x.nc.dap",
              "/data/coll/a.nc.dmr", "/data/coll", "/data/collx.dap"]
     ces = [None, "/time", "/lat", "/g/lon", "/temp", "/time[0:1:3]", "/ti"]
@@ -142,6 +174,22 @@ def main():
         u1, u2 = mk_url(), mk_url()
         if rng.random() < 0.2:
             u2 = u1[:4] + (u1[4],)
+        elif rng.random() < 0.6:
+            # neighbours: same request except for one component (host/port, path, constraint, other parameters)
+            h, p, ce, o = u1[:4]
+            which = rng.randrange(4)
+            if which == 0:
+                h = rng.choice(hosts)
+            elif which == 1:
+                p = rng.choice(paths)
+            elif which == 2:
+                ce = rng.choice(ces)
+            else:
+                o = rng.choice(others)
+            q = list(o)
+            if ce is not None:
+                q.insert(rng.randint(0, len(q)), "dap4.ce=" + ce)
+            u2 = (h, p, ce, o, h + p + ("?" + "&".join(q) if q else ""))
         k1 = sess.cache.create_key(requests.Request("GET", u1[4]).prepare())
         k2 = sess.cache.create_key(requests.Request("GET", u2[4]).prepare())
         same = k1 == k2
